@@ -45,6 +45,13 @@ def observe(tier):
               for g in GRAPHS for p in RPROGS for c in CACHES]
     cases += [[{"graph": g, "prog": p, "max_preempt": k, "sample": smp, "variant": v, "cache": c}]
               for v in ("terminology", "template") for g in GRAPHS for p in (PROGS if tier == "thorough" else ["dA_lA", "lC_dA_lC"]) for c in ("warm", "stale")]
+    # spec -> code: behaviours of the model (TLC simulation of LoaderBeh: random interleavings with many context switches, far
+    # beyond the preemption bound of the exploration above) replayed as schedules into the real loader
+    nb = 40 if tier == "quick" else 400
+    cases += [[{"beh": True, "graph": g, "prog": p, "cache": c, "n": nb, "seed": 11 * i + j}]
+              for i, g in enumerate(GRAPHS) for j, (p, c) in enumerate(
+                  [(p, "empty") for p in PROGS] + [(p, c) for p in RPROGS for c in ("empty", "stale")] +
+                  ([(p, c) for p in PROGS for c in ("warm", "stale")] + [(p, "warm") for p in RPROGS] if tier == "thorough" else [("dA_dB_lA_lA", "warm"), ("dD_dB_lD_lD", "stale")]))]
     # one case is the exploration of all schedules of one (graph, program, cache): it may take minutes on a loaded machine
     n, files = par.replay_stream(cases, "harness.loader", os.path.join(d, "S"), shard=4000, case_timeout=1800)
     return {"judge": [("JudgeLoader.tla", "JudgeLoader.cfg", files)], "tlc": tlc, "records": {"S": n},
@@ -52,5 +59,8 @@ def observe(tier):
                            "include graphs and caller programs against NoRaise/Transparent/SameCached/CacheSafe/Progress; (2) the real odml/terminology.py is run under a "
                            "deterministic scheduler for every schedule with at most %d preemption(s), 4 graphs x 6 programs; every execution is judged by TLC against "
                            "LoaderContract, and a sample of the event logs is validated by TLC as behaviours of OdmlLoader (LoaderTrace); the same exploration and "
-                           "contract judging is done for TemplateHandler.load / deferred_load (own tables, includes through the terminology loader)" % k,
+                           "contract judging is done for TemplateHandler.load / deferred_load (own tables, includes through the terminology loader); (3) spec -> code: %d behaviours "
+                           "per (graph, program, cache) of the model with a history variable (LoaderBeh, TLC simulation mode: random interleavings, many context switches) are replayed as schedules "
+                           "into the real loader; each such execution is judged against the contract, and TLC compares the real event sequence and outcome with the model's "
+                           "(a difference is a divergence of the model, not a verdict)" % (k, nb),
             "assumptions": ["cache_load is atomic (the property's granularity)", "one thread runs at a time; preemption only at table accesses and thread operations"]}
